@@ -51,13 +51,13 @@ POS_CTX = {
 
 
 def _gen(rng, tier):
-    return tf.Gen(rng, p_alias=0.0, p_table=0.15, hostile=0.3, with_sub=False)
+    return tf.Gen(rng, p_alias=0.0, p_table=0.15, hostile=0.3, with_sub=False, p_crit=0.12)
 
 
 def gen_cases(rng, tier):
     n = 450 if tier == "quick" else 6000
     g = _gen(rng, tier)
-    g0 = tf.Gen(rng, p_alias=0.0, p_table=0.0, hostile=0.3, with_sub=False)
+    g0 = tf.Gen(rng, p_alias=0.0, p_table=0.0, hostile=0.3, with_sub=False, p_crit=0.08)
     ga = tf.Gen(rng, p_alias=0.12, p_table=0.3, hostile=0.3, with_sub=True)
     out = []
     for i in range(n):
@@ -86,6 +86,23 @@ def gen_cases(rng, tier):
 
 
 A, B_, C_ = ["field", "a", None, None], ["field", "b", None, None], ["field", "c", None, None]
+
+
+def under_not_probes():
+    """NOT over every operand slot holding a predicate (comparison, IN, BETWEEN, IS NULL): the flag a NOT hands down must not
+    switch off the operand's brackets (seeded/C02-15: `NOT c=a=b` for NOT c=(a=b))."""
+    one, two = ["vali", 1, None], ["vali", 2, None]
+    preds = [["basic", "eq", A, B_, None], ["in", A, ["tuple", [one, two], None], False, None], ["between", A, one, two, None],
+             ["isnull", A, None]]
+    out = []
+    for p in preds:
+        out.append(["not", ["basic", "eq", C_, p, None], None])                                  # NOT c=(p)
+        out.append(["not", ["basic", "gt", ["arith", "add", p, one, None], one, None], None])    # NOT (p)+1>1
+        out.append(["not", ["basic", "eq", p, C_, None], None])                                  # NOT (p)=c
+        out.append(["not", ["isnull", p, None], None])                                           # NOT (p) IS NULL
+        out.append(["not", ["between", C_, p, two, None], None])                                 # NOT c BETWEEN (p) AND 2
+        out.append(["not", ["in", p, ["tuple", [one, two], None], False, None], None])           # NOT (p) IN (1,2)
+    return out
 
 
 def corpus():
@@ -121,6 +138,7 @@ def corpus():
          ["not", ["cplx", "and", ["basic", "lt", A, B_, None], ["isnull", C_, None], None], None], None],
         ["cplx", "or", ["between", A, B_, C_, None], ["in", A, ["tuple", [["vali", 1, None], ["vali", 2, None]], None], True, None], None],
     ]
+    ws += under_not_probes()[:6]
     p_ = ["basic", "gt", A, ["vali", 1, None], None]
     q_ = ["basic", "lt", B_, ["vali", 3, None], None]
     r_ = ["basic", "ne", C_, ["vali", 0, None], None]
@@ -630,6 +648,7 @@ def targeted_search(rng, broken, mism_cases):
             out.append({"kind": "ctx", "t": ["cplx", b, ["cplx", b2, p, q_, None], r, None], "c": sc})
             out.append({"kind": "ctx", "t": ["cplx", b, p, ["cplx", b2, q_, r, None], None], "c": sc})
             out.append({"kind": "ctx", "t": ["not", ["cplx", b, p, q_, None], None], "c": sc})
+    out += [{"kind": "ctx", "t": t, "c": sc} for t in under_not_probes()]
     for c in mism_cases:
         if c["kind"] == "agg":
             continue
